@@ -23,3 +23,11 @@ package audit
 //@   loop 0
 //@     invariant [bound] 0 <= iter && iter <= len(entries)
 //@     invariant [trail] (iter == 0 ==> auditLog == old(auditLog)) && (iter == 1 ==> auditLog == snoc(old(auditLog), evOf(entries[0])))
+
+// An audit record names identity, action, secret, version and the decision, and has no field that could carry a value.
+//@ layout [C05,C06 audit-entry] Entry { ID uint64 json:id; Time time.Time json:time; Principal Principal json:principal; Action acl.Action json:action; Authorized bool json:authorized; Secret string json:secret,omitempty; SecretVersion api.SecretVersion json:secretVersion,omitempty }
+//@ layout [C06 audit-principal] Principal { Hostname string json:hostname; IP netip.Addr json:ip; User string json:user,omitempty; Tags []string json:tags,omitempty }
+
+//@ func NewFile(path) (w, err)
+//@   ensures [C05 newfile.result] err != nil ==> w == nil
+//@   at call OpenFile: assert [C05 audit-file-flags] arg_flag == 1089 && arg_perm == 384
